@@ -9,6 +9,8 @@ import (
 	"time"
 )
 
+var verboseLog bool
+
 type PathCtl struct {
 	prefix  []int
 	pos     int
@@ -137,6 +139,13 @@ func (s *Session) Begin() {
 	if s.concrete {
 		return
 	}
+	if s.solver.kind.Name == SolverCVC5.Name {
+		s.solver.Restart()
+		s.lastRestarts = s.solver.restarts
+		s.script.Reset()
+		s.send("(set-logic ALL)\n" + s.r.Prelude())
+		return
+	}
 	s.solver.Send("(reset)\n")
 	s.script.Reset()
 	s.send(s.r.Prelude())
@@ -184,6 +193,10 @@ func (s *Session) endQuery() {
 
 // recover a restarted solver: replay the script
 func (s *Session) resync() {
+	if s.solver.kind.Name == SolverCVC5.Name {
+		s.solver.Send(s.script.String())
+		return
+	}
 	s.solver.Send("(reset)\n" + s.script.String())
 }
 
@@ -199,7 +212,11 @@ func (s *Session) Feasible(t *Term) bool {
 		return true
 	}
 	n := s.ref(t)
+	tq := time.Now()
 	ans := s.query("(assert "+n+")\n", s.feasTO)
+	if d := time.Since(tq); d > 500*time.Millisecond && verboseLog {
+		logf("    slow feasibility %.1fs -> %s at %s\n", d.Seconds(), ans, s.ex.curPos())
+	}
 	if ans == "unknown" && s.solver.Queries > 0 && s.solverRestarted() {
 		return true
 	}
@@ -274,7 +291,12 @@ func (s *Session) Obligation(id, kind string, cond *Term, pos, msg string) bool 
 	st.Posed++
 	st.Nontrivial++
 	t0 := time.Now()
-	defer func() { st.SolverMs += float64(time.Since(t0)) / 1e6 }()
+	defer func() {
+		st.SolverMs += float64(time.Since(t0)) / 1e6
+		if d := time.Since(t0); d > 500*time.Millisecond && verboseLog {
+			logf("    slow obligation %s %.1fs at %s winners=%v\n", id, d.Seconds(), pos, s.res.Winners)
+		}
+	}()
 	var blockers []string
 	neg := s.ref(s.ts.Not(cond))
 	violated := false
@@ -328,7 +350,8 @@ func (s *Session) Obligation(id, kind string, cond *Term, pos, msg string) bool 
 	if cond.IsFalse() {
 		return false
 	}
-	if !s.Feasible(cond) {
+	// pc is satisfiable; if the obligation was discharged then pc ∧ cond is satisfiable too
+	if violated && !s.Feasible(cond) {
 		return false
 	}
 	s.AssertPC(cond)
@@ -451,14 +474,14 @@ func (s *Session) portfolioSolve(extra string) (string, *Solver, func()) {
 	ch := make(chan out, len(kinds))
 	var procs []*Solver
 	for _, k := range kinds {
-		sv, err := StartSolver(k)
+		sv, err := StartSolverTO(k, s.oblTO)
 		if err != nil {
 			continue
 		}
 		procs = append(procs, sv)
 		go func(sv *Solver) {
 			text := script
-			if sv.kind.Name == SolverCVC5.Name {
+			if sv.kind.Name == SolverCVC5.Name && !strings.HasPrefix(text, "(set-logic") {
 				text = "(set-logic ALL)\n" + text
 			}
 			sv.Send(text)
